@@ -156,6 +156,7 @@ func Content(spec string) []byte {
 }
 
 var ErrNoHandle = errors.New("harness: no such handle (call skipped)")
+var ErrSlotBusy = errors.New("harness: handle slot in use (call skipped)")
 
 var (
 	T1 = time.Unix(1234567891, 0).UTC()
@@ -391,6 +392,9 @@ func ExecImpl(s *rig.Stack, o Op) error {
 	case "move":
 		return s.WriteOps.Move(o.P, o.Q)
 	case "hopen":
+		if s.GetHandle(o.H) != nil {
+			return ErrSlotBusy // the harness never leaks a handle by overwriting its slot
+		}
 		f, err := fsys.OpenFile(o.P, o.N, 0o644)
 		if err != nil {
 			return err
